@@ -27,10 +27,7 @@ def log(*a):
 # --------------------------------------------------------------------------
 def go_env():
     env = dict(os.environ)
-    env.update(GOFLAGS="-mod=mod", GOPROXY="off", GOTOOLCHAIN="local", GONOSUMDB="*", GONOSUMCHECK="1",
-               GOFLAGS_EXTRA="")
-    env.pop("GOSUMDB", None)
-    env["GOSUMDB"] = "off"
+    env.update(GOFLAGS="-mod=mod", GOPROXY="off", GOTOOLCHAIN="local", GOSUMDB="off")
     return env
 
 
@@ -51,9 +48,16 @@ def build_harness(race=False):
         return _built[key]
     hdir = os.path.join(VERIF, "harness")
     shutil.copyfile(os.path.join(REPO, "go.sum"), os.path.join(hdir, "go.sum"))
+    modflag = []
+    if REPO != "/repo":
+        # development only: build against another checkout of the repository
+        alt = open(os.path.join(hdir, "go.mod")).read().replace("=> /repo", "=> " + REPO)
+        open(os.path.join(hdir, "go.alt.mod"), "w").write(alt)
+        shutil.copyfile(os.path.join(REPO, "go.sum"), os.path.join(hdir, "go.alt.sum"))
+        modflag = ["-modfile=go.alt.mod"]
     os.makedirs(os.path.join(WORK, "bin"), exist_ok=True)
     out = os.path.join(WORK, "bin", "replay" + ("-race" if race else ""))
-    cmd = [go_bin(), "build", "-tags", "verif"]
+    cmd = [go_bin(), "build", "-tags", "verif"] + modflag
     if race:
         cmd += ["-race", "-gcflags=all=-d=checkptr=0"]
     cmd += ["-o", out, "./cmd/replay"]
